@@ -105,8 +105,20 @@ impl KNumber {
             (I64(a), I64(b)) => {
                 if b < 0 {
                     F64((a as f64).powf(b as f64))
+                } else if let Ok(exponent) = u32::try_from(b) {
+                    I64(a.wrapping_pow(exponent))
                 } else {
-                    I64(a.wrapping_pow(b as u32))
+                    // The exponent is too large for wrapping_pow,
+                    // so the wrapped result is calculated via exponentiation by squaring.
+                    let (mut base, mut exponent, mut result) = (a, b as u64, 1_i64);
+                    while exponent > 0 {
+                        if exponent & 1 == 1 {
+                            result = result.wrapping_mul(base);
+                        }
+                        base = base.wrapping_mul(base);
+                        exponent >>= 1;
+                    }
+                    I64(result)
                 }
             }
         }
